@@ -1,24 +1,34 @@
 // Stream c15 — block scoping, function calls, control transfer (property C15).
 //
-// Generates random procedures of the language of lean/Csvq/Model/Scope.lean (nesting <= 6, variable names
-// from a pool of 4, loops bounded by private counters, every function call passes a decreasing budget),
-// renders them as csvq program text, runs them through the real Processor in-process and records
+// Generates random procedures of the language of lean/Csvq/Model/Scope.lean (nesting <= 6, variable and
+// function names from pools of 4, loops bounded by private counters, every function call passes a decreasing
+// budget argument), renders them as csvq program text (IF … as IF/ELSEIF/ELSE or as CASE WHEN), runs them
+// through the real Processor in-process and records
 //
 //	op line   c15.run <fuel> <program, prefix token encoding of lean/Csvq/Drive/C15.lean>
 //	answer    <flow> | <PRINT trace> | <variables of every block of the session scope> | <functions …>
 //
-// and checks laws of the property directly on the implementation (see the law* functions).
+// One program in five is "wild": BREAK / CONTINUE / EXIT / RETURN also stand where csvq's grammar forbids
+// them (written as PRINT statements and patched into the parsed syntax tree), because the theorems of
+// Csvq/Props/C15.lean quantify over all syntax trees.
+//
+// Laws checked on the implementation alone (law* functions): objects (variable, cursor, temporary table,
+// function, aggregate) declared at random depth inside IF / ELSE / ELSEIF / CASE / WHILE / WHILE IN / function
+// bodies do not survive the block; inner objects shadow outer ones and leave them unchanged; outer assignments
+// persist; a declaration at the very end of a block is invisible; concurrent invocations have their own
+// parameters and locals; blocks handed out by csvq's pool are empty and unshared.
 package main
 
 import (
 	"context"
 	"fmt"
 	"os"
-	"runtime/pprof"
+	"reflect"
 	"sort"
 	"strconv"
 	"strings"
 	"time"
+	"unsafe"
 
 	"github.com/mithrandie/csvq/lib/option"
 	"github.com/mithrandie/csvq/lib/parser"
@@ -50,6 +60,8 @@ type Branch struct {
 
 type Stmt struct {
 	K        byte // D A X P I W B K Q R F Y
+	AsCase   bool // an 'I' written as CASE WHEN … THEN … ELSE … END CASE (Processor.Case instead of IfStmt)
+	Stray    bool // a B K Q R where csvq's grammar does not admit it: written as a PRINT, patched into the syntax tree
 	X        int
 	E        *Expr
 	Branches []Branch
@@ -211,16 +223,40 @@ func (s *Stmt) sql(b *strings.Builder) {
 		s.E.sql(b)
 		b.WriteByte(';')
 	case 'R':
-		b.WriteString("RETURN ")
+		if s.Stray {
+			b.WriteString("PRINT ")
+		} else {
+			b.WriteString("RETURN ")
+		}
 		s.E.sql(b)
 		b.WriteByte(';')
-	case 'B':
-		b.WriteString("BREAK;")
-	case 'K':
-		b.WriteString("CONTINUE;")
-	case 'Q':
-		b.WriteString("EXIT;")
+	case 'B', 'K', 'Q':
+		switch {
+		case s.Stray:
+			b.WriteString("PRINT 0;")
+		case s.K == 'B':
+			b.WriteString("BREAK;")
+		case s.K == 'K':
+			b.WriteString("CONTINUE;")
+		default:
+			b.WriteString("EXIT;")
+		}
 	case 'I':
+		if s.AsCase {
+			b.WriteString("CASE ")
+			for _, br := range s.Branches {
+				b.WriteString("WHEN ")
+				br.C.sql(b)
+				b.WriteString(" THEN ")
+				sqlBlock(b, br.Body)
+			}
+			if len(s.Els) > 0 {
+				b.WriteString("ELSE ")
+				sqlBlock(b, s.Els)
+			}
+			b.WriteString("END CASE;")
+			return
+		}
 		for i, br := range s.Branches {
 			if i == 0 {
 				b.WriteString("IF ")
@@ -276,6 +312,7 @@ type genCtx struct {
 	inLoop    bool
 	inFunc    bool
 	noDisp    bool           // law programs: no DISPOSE
+	wild      bool           // BREAK / CONTINUE / EXIT / RETURN anywhere, also where the grammar forbids them
 	visible   map[int]bool   // pool variables probably visible here
 	declared  map[int]bool   // pool variables declared in the block being generated
 	fns       map[int][2]int // functions probably visible: (required, total) parameters beyond the budget parameter
@@ -458,7 +495,7 @@ func (p *pgen) stmt(c genCtx) []*Stmt {
 		if p.g.Intn(3) > 0 {
 			nb = 1
 		}
-		s := &Stmt{K: 'I'}
+		s := &Stmt{K: 'I', AsCase: p.g.Intn(3) == 0}
 		for i := 0; i < nb; i++ {
 			cc := p.cond(c)
 			s.Branches = append(s.Branches, Branch{C: cc, Body: p.block(c.child(), 0, 3)})
@@ -543,12 +580,24 @@ func (p *pgen) stmt(c genCtx) []*Stmt {
 		p.note('Y', c)
 		return []*Stmt{{K: 'Y', X: f}}
 	case r < 91:
-		if c.inLoop {
+		if c.inLoop || (c.wild && p.g.Intn(3) == 0) {
 			k := "BK"[p.g.Intn(2)]
 			p.note(k, c)
-			return []*Stmt{{K: k}}
+			if !c.inLoop {
+				p.kinds['!']++
+			}
+			return []*Stmt{{K: k, Stray: !c.inLoop}}
 		}
 	case r < 96:
+		if c.wild && p.g.Intn(3) == 0 { // RETURN outside a function, EXIT inside one
+			p.kinds['!']++
+			if c.inFunc {
+				p.note('Q', c)
+				return []*Stmt{{K: 'Q', Stray: true}}
+			}
+			p.note('R', c)
+			return []*Stmt{{K: 'R', E: p.expr(c, 0, true), Stray: true}}
+		}
 		if c.inFunc {
 			p.note('R', c)
 			return []*Stmt{{K: 'R', E: p.expr(c, 0, true)}}
@@ -651,12 +700,12 @@ func (p *pgen) program(c genCtx) []*Stmt {
 	return append(prog, p.block(c, 3, 8)...)
 }
 
-func genProgram(g *hc.Gen, noDisp bool) (*pgen, []*Stmt) {
-	t0 := time.Now()
-	defer func() { tGen += time.Since(t0) }()
+func genProgram(g *hc.Gen, noDisp, wild bool) (*pgen, []*Stmt) {
 	for {
 		p := newPgen(g)
-		prog := p.program(topCtx(noDisp))
+		c := topCtx(noDisp)
+		c.wild = wild
+		prog := p.program(c)
 		if p.cost(prog) <= 60000 {
 			return p, prog
 		}
@@ -754,16 +803,99 @@ func scopeState(rs *query.ReferenceScope) (string, string) {
 	return strings.Join(vs, "/"), strings.Join(fs, "/")
 }
 
-var flowName = map[query.StatementFlow]string{query.Terminate: "N", query.Exit: "X", query.Break: "B", query.Continue: "K", query.Return: "R?"}
+var flowName = map[query.StatementFlow]string{query.Terminate: "N", query.Exit: "X", query.Break: "B", query.Continue: "K"}
 
 // exec runs program text on pr (which keeps its scope between calls) and reports what can be observed
-func exec(pr *hc.Proc, sql string) result {
-	t0 := time.Now()
-	defer func() { tExec += time.Since(t0) }()
+func exec(pr *hc.Proc, sql string) result { return execPatched(pr, sql, nil) }
+
+// patch puts the stray BREAK / CONTINUE / EXIT / RETURN statements of `my` into the parsed tree, which has the
+// same shape (every statement of `my` was written as exactly one statement)
+func patch(my []*Stmt, parsed []parser.Statement) bool {
+	if len(my) != len(parsed) {
+		return false
+	}
+	for i, s := range my {
+		switch s.K {
+		case 'B', 'K', 'Q', 'R':
+			if !s.Stray {
+				continue
+			}
+			pt, ok := parsed[i].(parser.Print)
+			if !ok {
+				return false
+			}
+			switch s.K {
+			case 'B':
+				parsed[i] = parser.FlowControl{Token: parser.BREAK}
+			case 'K':
+				parsed[i] = parser.FlowControl{Token: parser.CONTINUE}
+			case 'Q':
+				parsed[i] = parser.Exit{}
+			case 'R':
+				parsed[i] = parser.Return{Value: pt.Value}
+			}
+		case 'I':
+			var lists [][]parser.Statement
+			var els []parser.Statement
+			switch n := parsed[i].(type) {
+			case parser.If:
+				lists = append(lists, n.Statements)
+				for _, e := range n.ElseIf {
+					lists = append(lists, e.Statements)
+				}
+				els = n.Else.Statements
+			case parser.Case:
+				for _, w := range n.When {
+					lists = append(lists, w.Statements)
+				}
+				els = n.Else.Statements
+			default:
+				return false
+			}
+			if len(lists) != len(s.Branches) {
+				return false
+			}
+			for j := range lists {
+				if !patch(s.Branches[j].Body, lists[j]) {
+					return false
+				}
+			}
+			if !patch(s.Els, els) {
+				return false
+			}
+		case 'W':
+			n, ok := parsed[i].(parser.While)
+			if !ok || !patch(s.Body, n.Statements) {
+				return false
+			}
+		case 'F':
+			n, ok := parsed[i].(parser.FunctionDeclaration)
+			if !ok || !patch(s.Body, n.Statements) {
+				return false
+			}
+		}
+	}
+	return true
+}
+
+// returnValOf reads the unexported Processor.returnVal (only a RETURN outside any function leaves it visible)
+func returnValOf(p *query.Processor) string {
+	f := reflect.ValueOf(p).Elem().FieldByName("returnVal")
+	if !f.IsValid() {
+		return "?"
+	}
+	v := reflect.NewAt(f.Type(), unsafe.Pointer(f.UnsafeAddr())).Elem().Interface()
+	if v == nil {
+		return "N"
+	}
+	return canonVal(v.(value.Primary))
+}
+
+func execPatched(pr *hc.Proc, sql string, my []*Stmt) result {
 	pr.Stdout.Reset()
 	var r result
 	stmts, _, err := parser.Parse(sql, "", false, pr.P.Tx.Flags.AnsiQuotes)
-	if err != nil {
+	if err != nil || (my != nil && !patch(my, stmts)) {
 		r.flow, r.code, r.fatal = "SYNTAX", -2, true
 		return r
 	}
@@ -775,8 +907,11 @@ func exec(pr *hc.Proc, sql string) result {
 		r.flow = fmt.Sprintf("E%d", r.code)
 	} else {
 		r.flow = flowName[flow]
-		if flow == query.TerminateWithError {
+		switch flow {
+		case query.TerminateWithError:
 			r.flow = "E?"
+		case query.Return:
+			r.flow = "R" + returnValOf(pr.P)
 		}
 	}
 	txt := strings.TrimSuffix(pr.Stdout.String(), "\n")
@@ -806,11 +941,7 @@ func (r result) line() string {
 	return r.flow + " | " + joinOr(r.out, "-") + " | " + r.vars + " | " + r.funs
 }
 
-var tNewProc, tExec, tGen time.Duration
-
 func newProc() *hc.Proc {
-	t0 := time.Now()
-	defer func() { tNewProc += time.Since(t0) }()
 	pr := hc.NewProc("")
 	_ = pr.P.Tx.SetFlag(option.QuietFlag, true) // only PRINT writes to stdout ("1 record inserted" etc. are notices)
 	return pr
@@ -818,7 +949,7 @@ func newProc() *hc.Proc {
 
 // ---------------------------------------------------------------- laws checked on the implementation alone
 
-var wrapKinds = []string{"if", "else", "while", "func", "elseif"}
+var wrapKinds = []string{"if", "else", "while", "func", "elseif", "case", "casevalue", "caseelse", "whilein"}
 
 // wrap nests `inner` in `depth` random block constructs (every one runs its body exactly once);
 // helper function names are fresh (hz<n>), counters too (@wz<n>).
@@ -836,6 +967,14 @@ func wrap(g *hc.Gen, inner string, depth int, id *int) (string, []string) {
 			s = "IF FALSE THEN PRINT 0; ELSE " + s + " END IF;"
 		case "elseif":
 			s = "IF NULL THEN PRINT 0; ELSEIF (1 = 1) THEN " + s + " END IF;"
+		case "case":
+			s = "CASE WHEN FALSE THEN PRINT 0; WHEN TRUE THEN " + s + " END CASE;"
+		case "casevalue":
+			s = "CASE 2 WHEN 1 THEN PRINT 0; WHEN 2 THEN " + s + " ELSE PRINT 0; END CASE;"
+		case "caseelse":
+			s = "CASE WHEN NULL THEN PRINT 0; ELSE " + s + " END CASE;"
+		case "whilein":
+			s = fmt.Sprintf("DECLARE cwz%d CURSOR FOR SELECT 1; OPEN cwz%d; WHILE VAR @wv%d IN cwz%d DO %s END WHILE; DISPOSE CURSOR cwz%d;", *id, *id, *id, *id, s, *id)
 		case "while":
 			w := fmt.Sprintf("@wz%d", *id)
 			s = fmt.Sprintf("VAR %s := 0; WHILE (%s < 1) DO %s := (%s + 1); %s END WHILE;", w, w, w, w, s)
@@ -845,6 +984,15 @@ func wrap(g *hc.Gen, inner string, depth int, id *int) (string, []string) {
 		}
 	}
 	return s, kinds
+}
+
+// report records a failed law; every failure is counted, the first few of each law are written out
+func report(o *hc.Out, name string, c lawCase) {
+	if o.Stats["law_fail:"+name] < 5 {
+		o.Law(name, c)
+	} else {
+		o.Stats["law_fail:"+name]++
+	}
 }
 
 type lawCase struct {
@@ -884,9 +1032,8 @@ func lawsObjects(g *hc.Gen, o *hc.Out) {
 		r2 := exec(pr, pb.use)
 		o.Count("law:local_" + pb.name)
 		o.Count("law_wrap_innermost:" + kinds[0])
-		o.NonTrivial(fmt.Sprintf("local|%s|%s|%v", pb.decl, pb.use, kinds))
 		if r1.code != 0 || r2.code != pb.want {
-			o.Law("decl_local_"+pb.name, lawCase{"decl_local_" + pb.name, []string{"VAR @q; " + body, pb.use},
+			report(o, "decl_local_"+pb.name, lawCase{"decl_local_" + pb.name, []string{"VAR @q; " + body, pb.use},
 				fmt.Sprintf("first=%s second=%s", r1.flow, r2.flow), fmt.Sprintf("first ok, second E%d", pb.want)})
 		}
 		pr.Close()
@@ -910,17 +1057,17 @@ func lawsObjects(g *hc.Gen, o *hc.Out) {
 	{
 		pr := newProc()
 		body, kinds := wrap(g, sh.inner, depth, &id)
+		o.Count("law_wrap_innermost:" + kinds[0])
 		r0 := exec(pr, sh.outer)
 		r1 := exec(pr, body)
 		r2 := exec(pr, sh.check)
 		o.Count("law:shadow_" + sh.name)
-		o.NonTrivial(fmt.Sprintf("shadow|%s|%v", sh.name, kinds))
 		sqls := []string{sh.outer, body, sh.check}
 		if got := joinOr(r1.out, "-"); r0.code != 0 || r1.code != 0 || got != sh.wantInner {
-			o.Law("inner_declaration_shadows_"+sh.name, lawCase{"inner_declaration_shadows_" + sh.name, sqls, r1.flow + " " + got, "N " + sh.wantInner})
+			report(o, "inner_declaration_shadows_"+sh.name, lawCase{"inner_declaration_shadows_" + sh.name, sqls, r1.flow + " " + got, "N " + sh.wantInner})
 		}
 		if got := joinOr(r2.out, "-"); r2.code != 0 || got != sh.wantOuter {
-			o.Law("shadow_preserves_outer_"+sh.name, lawCase{"shadow_preserves_outer_" + sh.name, sqls, r2.flow + " " + got, "N " + sh.wantOuter})
+			report(o, "shadow_preserves_outer_"+sh.name, lawCase{"shadow_preserves_outer_" + sh.name, sqls, r2.flow + " " + got, "N " + sh.wantOuter})
 		}
 		pr.Close()
 	}
@@ -929,12 +1076,12 @@ func lawsObjects(g *hc.Gen, o *hc.Out) {
 		pr := newProc()
 		v := int64(g.Intn(1000))
 		body, kinds := wrap(g, fmt.Sprintf("@zz := %d;", v), depth, &id)
+		o.Count("law_wrap_innermost:" + kinds[0])
 		sql := "VAR @zz := -1; " + body + " PRINT @zz;"
 		r := exec(pr, sql)
 		o.Count("law:outer_assign")
-		o.NonTrivial(fmt.Sprintf("assign|%v", kinds))
 		if got := joinOr(r.out, "-"); r.code != 0 || got != fmt.Sprintf("I%d", v) {
-			o.Law("outer_assign_persists", lawCase{"outer_assign_persists", []string{sql}, r.flow + " " + got, fmt.Sprintf("I%d", v)})
+			report(o, "outer_assign_persists", lawCase{"outer_assign_persists", []string{sql}, r.flow + " " + got, fmt.Sprintf("I%d", v)})
 		}
 		pr.Close()
 	}
@@ -950,7 +1097,7 @@ func globalVar(pr *hc.Proc, x int) string {
 
 // random programs: an inner declaration of a name shadows the outer variable and does not change it
 func lawShadowRandom(g *hc.Gen, o *hc.Out, pr *hc.Proc) {
-	prePg, pre := genProgram(g, true)
+	prePg, pre := genProgram(g, true, false)
 	pg := newPgen(g)
 	pg.budget = 10
 	c := topCtx(true).child()
@@ -982,9 +1129,8 @@ func lawShadowRandom(g *hc.Gen, o *hc.Out, pr *hc.Proc) {
 	if before != "-" {
 		o.Count("law:shadow_random_outer_declared")
 	}
-	o.NonTrivial("shadowrnd|" + before + "|" + r1.flow + "|" + strconv.Itoa(len(r1.out)))
 	if r0.fatal || r1.fatal {
-		o.Law("generator_syntax", lawCase{"generator_syntax", []string{sqlProgram(pre), blk}, r0.flow + " " + r1.flow, "parses"})
+		report(o, "generator_syntax", lawCase{"generator_syntax", []string{sqlProgram(pre), blk}, r0.flow + " " + r1.flow, "parses"})
 		return
 	}
 	if r1.code == query.ErrorContextDone || r1.code == query.ErrorContextCanceled || r0.code == query.ErrorContextDone {
@@ -992,7 +1138,7 @@ func lawShadowRandom(g *hc.Gen, o *hc.Out, pr *hc.Proc) {
 		return
 	}
 	if before != after {
-		o.Law("shadow_preserves_outer", lawCase{"shadow_preserves_outer", []string{sqlProgram(pre), blk}, after, before})
+		report(o, "shadow_preserves_outer", lawCase{"shadow_preserves_outer", []string{sqlProgram(pre), blk}, after, before})
 	}
 }
 
@@ -1052,7 +1198,7 @@ func lawLateDecl(g *hc.Gen, o *hc.Out, pr *hc.Proc, prog []*Stmt, base result) {
 	r := exec(pr, sql)
 	o.Count("law:late_decl")
 	if r.line() != base.line() {
-		o.Law("late_shadow_invisible", lawCase{"late_shadow_invisible", []string{sqlProgram(prog), sql}, r.line(), base.line()})
+		report(o, "late_shadow_invisible", lawCase{"late_shadow_invisible", []string{sqlProgram(prog), sql}, r.line(), base.line()})
 	}
 }
 
@@ -1071,13 +1217,13 @@ func lawConcurrent(g *hc.Gen, o *hc.Out) {
 		fmt.Sprintf(" DECLARE fz FUNCTION (@p) AS BEGIN VAR @acc := 0; VAR @i := 0; WHILE (@i < %d) DO @i := (@i + 1); VAR @t := @p; @acc := (@acc + @t); END WHILE; IF (@p = 0) THEN RETURN @acc; END IF; RETURN (@acc + fz(0)); END;", k)
 	r := exec(pr, setup)
 	if r.code != 0 {
-		o.Law("call_frames_independent_concurrent", lawCase{"call_frames_independent_concurrent", []string{setup}, r.flow, "setup runs"})
+		report(o, "call_frames_independent_concurrent", lawCase{"call_frames_independent_concurrent", []string{setup}, r.flow, "setup runs"})
 		return
 	}
 	view, err := pr.Query("SELECT c1, fz(c1) FROM tz")
 	o.Count("law:concurrent")
 	if err != nil {
-		o.Law("call_frames_independent_concurrent", lawCase{"call_frames_independent_concurrent", []string{setup, "SELECT c1, fz(c1) FROM tz"}, err.Error(), "no error"})
+		report(o, "call_frames_independent_concurrent", lawCase{"call_frames_independent_concurrent", []string{setup, "SELECT c1, fz(c1) FROM tz"}, err.Error(), "no error"})
 		return
 	}
 	bad := 0
@@ -1088,14 +1234,51 @@ func lawConcurrent(g *hc.Gen, o *hc.Out) {
 			bad++
 		}
 	}
-	o.NonTrivial(fmt.Sprintf("concurrent|%d|%d", n, k))
 	if bad > 0 || view.RecordLen() != n {
-		o.Law("call_frames_independent_concurrent", lawCase{"call_frames_independent_concurrent", []string{setup, "SELECT c1, fz(c1) FROM tz"},
+		report(o, "call_frames_independent_concurrent", lawCase{"call_frames_independent_concurrent", []string{setup, "SELECT c1, fz(c1) FROM tz"},
 			fmt.Sprintf("%d of %d rows wrong", bad, view.RecordLen()), "every row k*c1"})
 	}
 }
 
+// blocks handed out by csvq's pool are empty and are not shared with each other or with a live scope
+// (a block released while still in use, or released twice, would show up here after the many scopes opened above)
+func lawPool(o *hc.Out, live *query.ReferenceScope) {
+	seen := map[*query.SyncMap]bool{}
+	for _, b := range live.Blocks {
+		seen[b.Variables.SyncMap] = true
+	}
+	var got []query.BlockScope
+	dirty, shared := 0, 0
+	for i := 0; i < 256; i++ {
+		b := query.GetBlockScope()
+		got = append(got, b)
+		if b.Variables.Len() != 0 || b.Functions.Len() != 0 || b.Cursors.Len() != 0 || b.TemporaryTables.Len() != 0 {
+			dirty++
+		}
+		if seen[b.Variables.SyncMap] {
+			shared++
+		}
+		seen[b.Variables.SyncMap] = true
+	}
+	for _, b := range got {
+		query.PutBlockScope(b)
+	}
+	o.Count("law:pool")
+	if dirty > 0 || shared > 0 {
+		report(o, "pool_no_alias", lawCase{"pool_no_alias", nil, fmt.Sprintf("dirty=%d shared=%d", dirty, shared), "0 0"})
+	}
+}
+
 // ---------------------------------------------------------------- the stream
+
+// declaredNames strips the values from a canonical variable list
+func declaredNames(vars string) string {
+	var out []string
+	for _, kv := range strings.Split(vars, ",") {
+		out = append(out, strings.SplitN(kv, "=", 2)[0])
+	}
+	return strings.Join(out, ",")
+}
 
 func staticShadow(prog []*Stmt) bool {
 	var walk func(ss []*Stmt, outer map[int]bool) bool
@@ -1136,17 +1319,16 @@ func runC15(seed int64, n int, dir string, _ []string) {
 	g := hc.NewGen(seed)
 	o := hc.NewOut(dir)
 	defer o.Close()
-	if pf := os.Getenv("C15_PROF"); pf != "" {
-		f, _ := os.Create(pf)
-		_ = pprof.StartCPUProfile(f)
-		defer pprof.StopCPUProfile()
-	}
 
 	shared := newProc()
 	defer shared.Close()
 	lawConcurrent(g, o)
 	for i := 0; i < n; i++ {
-		pg, prog := genProgram(g, false)
+		if i%1000 == 999 {
+			lawPool(o, shared.P.ReferenceScope)
+		}
+		wild := i%5 == 4
+		pg, prog := genProgram(g, false, wild)
 		sql := sqlProgram(prog)
 		if debug {
 			fmt.Fprintf(os.Stderr, "%d cost=%d %s\n", i, pg.cost(prog), sql)
@@ -1154,9 +1336,15 @@ func runC15(seed int64, n int, dir string, _ []string) {
 		// one session for all generated programs, a new Processor (new global scope, taken from csvq's pool of
 		// blocks like every other scope) per program
 		shared.P = query.NewProcessor(shared.P.Tx)
-		r := exec(shared, sql)
+		var r result
+		if wild {
+			r = execPatched(shared, sql, prog)
+			o.Count("wild_programs")
+		} else {
+			r = exec(shared, sql)
+		}
 		if r.fatal {
-			o.Law("generator_syntax", lawCase{"generator_syntax", []string{sql}, r.flow, "parses"})
+			report(o, "generator_syntax", lawCase{"generator_syntax", []string{sql}, r.flow, "parses"})
 			continue
 		}
 		if r.code == query.ErrorContextDone || r.code == query.ErrorContextCanceled {
@@ -1165,10 +1353,14 @@ func runC15(seed int64, n int, dir string, _ []string) {
 		}
 		o.Case("c15.run "+strconv.Itoa(fuel)+" "+encProgram(prog), r.line())
 		if r.nblk != 1 {
-			o.Law("block_stack_balanced", lawCase{"block_stack_balanced", []string{sql}, strconv.Itoa(r.nblk), "1"})
+			report(o, "block_stack_balanced", lawCase{"block_stack_balanced", []string{sql}, strconv.Itoa(r.nblk), "1"})
 		}
 		// distribution
-		o.Count("flow:" + r.flow)
+		if strings.HasPrefix(r.flow, "R") {
+			o.Count("flow:R")
+		} else {
+			o.Count("flow:" + r.flow)
+		}
 		o.Count(fmt.Sprintf("depth:%d", pg.maxDepth))
 		np := len(r.out)
 		if np > 8 {
@@ -1186,9 +1378,12 @@ func runC15(seed int64, n int, dir string, _ []string) {
 			o.Count("static_shadowing")
 		}
 		if (len(r.out) > 0 || r.flow != "N") && (pg.kinds['I']+pg.kinds['W']+pg.kinds['F'] > 0) {
-			o.NonTrivial(fmt.Sprintf("%s|%s|d%d|p%d|%v|%s", strings.Join(ks, ""), r.flow, pg.maxDepth, np, sh, r.vars))
+			o.NonTrivial(fmt.Sprintf("%s|%s|d%d|p%d|%v|%s", strings.Join(ks, ""), r.flow, pg.maxDepth, np, sh, declaredNames(r.vars)))
 		}
 
+		if wild {
+			continue
+		}
 		if i%4 == 0 {
 			lawLateDecl(g, o, shared, prog, r)
 		}
@@ -1198,10 +1393,9 @@ func runC15(seed int64, n int, dir string, _ []string) {
 		if i%8 == 2 {
 			lawsObjects(g, o)
 		}
+
 	}
-	if debug {
-		fmt.Fprintln(os.Stderr, "newProc", tNewProc, "exec", tExec, "gen", tGen)
-	}
+	lawPool(o, shared.P.ReferenceScope)
 	if os.Getenv("VERIF_TIER") == "thorough" {
 		for i := 0; i < 5; i++ {
 			lawConcurrent(g, o)
